@@ -50,6 +50,49 @@ def modified_roots(I, body_nodes, fr):
     return roots
 
 
+_LOCAL_NAMES = {}
+
+
+def local_names(fn):
+    """local id -> source name of the binding (for stable, readable loop-variable names)."""
+    key = fn["path"]
+    if key in _LOCAL_NAMES:
+        return _LOCAL_NAMES[key]
+    out = {}
+
+    def pats(p):
+        if not isinstance(p, dict):
+            return
+        if p.get("k") == "bind":
+            out[p["id"]] = p["name"]
+        for v in p.values():
+            if isinstance(v, dict):
+                pats(v)
+            elif isinstance(v, list):
+                for x in v:
+                    pats(x)
+
+    def visit(e):
+        if isinstance(e, dict):
+            for k, v in e.items():
+                if k in ("pat", "params"):
+                    if isinstance(v, list):
+                        for x in v:
+                            pats(x)
+                    else:
+                        pats(v)
+                elif isinstance(v, (dict, list)):
+                    visit(v)
+        elif isinstance(e, list):
+            for x in e:
+                visit(x)
+    for p in fn["params"]:
+        pats(p["pat"])
+    visit(fn["body"])
+    _LOCAL_NAMES[key] = out
+    return out
+
+
 def fresh_like(I, st0, v, name, cands, path=()):
     """A fresh value with the shape of v; registers candidate invariants in cands."""
     nm = (name,) + path
@@ -163,8 +206,9 @@ def run_loop(I, st, fr, site, roots, run_body, what):
         entry[r] = (place, v)
     cands = []
     fresh = {}
+    names = local_names(fr.fn) if fr.fn else {}
     for r, (place, v) in entry.items():
-        fresh[r] = fresh_like(I, st, v, lname + (str(r),), cands)
+        fresh[r] = fresh_like(I, st, v, lname + (str(names.get(r, r)),), cands)
     # pair template: sum(X) = len(Y) for modified nat arrays X and arrays Y with equal facts at entry
     seqs = []
     for r, (place, v) in entry.items():
@@ -213,6 +257,41 @@ def run_loop(I, st, fr, site, roots, run_body, what):
                 for i, c in enumerate(cands):
                     if i not in failed and not check_cand(s, c, cur_of):
                         failed.add(i)
+        if not failed and it <= 6:
+            # widen the candidate set with upper bounds observed at the back edges that also
+            # hold at loop entry (e.g. a frontier that starts empty)
+            extra = []
+            for (s, v, ctl) in outs:
+                if ctl not in (None, "continue"):
+                    continue
+                cur_of = cur_of_factory(s)
+                for obj, (place, path) in leaf_loc.items():
+                    if not (isinstance(obj, tuple) and obj and obj[0] == "v"):
+                        continue
+                    curv = cur_of(obj)
+                    if not isinstance(curv, VSeq):
+                        continue
+                    ev = get_path(entry_value_of(entry, place), path)
+                    if not isinstance(ev, VSeq):
+                        continue
+                    for b in ubs(s, curv.t):
+                        if any(mentions_loopvar(a) for a in b.atoms()):
+                            continue
+                        c = ("seq_bound", obj, b)
+                        if c in cands or c in extra:
+                            continue
+                        if any(cc[0] == "seq_bound" and cc[1] == obj for cc in cands):
+                            continue
+                        if prove_bound(st, ev.t, b):
+                            extra.append(c)
+            if extra:
+                del I.obligations[n_ob:]
+                I.unmodelled = saved_unm
+                I.lemma_uses = saved_lem
+                I.assumptions = saved_ass
+                fr.loop_ix = saved_loop_ix
+                cands = cands + extra
+                continue
         if not failed or it > 12:
             if failed:
                 cands = [c for i, c in enumerate(cands) if i not in failed]
@@ -229,6 +308,23 @@ def run_loop(I, st, fr, site, roots, run_body, what):
     exits = [(s, UNIT, None) for (s, v, ctl) in outs if ctl == "break"]
     others = [(s, v, ctl) for (s, v, ctl) in outs if ctl == "ret"]
     return head, exits, others
+
+
+def entry_value_of(entry, place):
+    for r, (pl, v) in entry.items():
+        if pl == place:
+            return v
+    return None
+
+
+def mentions_loopvar(a):
+    if isinstance(a, tuple):
+        if a and a[0] == "loopvar":
+            return True
+        return any(mentions_loopvar(x) for x in a)
+    if isinstance(a, Poly):
+        return any(mentions_loopvar(x) for x in a.atoms())
+    return False
 
 
 def fmt_cand(c):
@@ -262,11 +358,15 @@ def for_loop(I, e, st, fr):
     inner = loop["stmts"][0]["e"] if loop["stmts"] else loop["tail"]
     assert inner["k"] == "match", inner["k"]
     some_arm = None
+    pat = None
     for a in inner["arms"]:
         p = a["pat"]
-        if p["k"] == "tuple_struct":
+        if p["k"] == "tuple_struct" and p["pats"]:
             some_arm = a
-    pat = some_arm["pat"]["pats"][0] if some_arm["pat"]["k"] == "tuple_struct" else None
+            pat = p["pats"][0]
+        elif p["k"] == "struct" and p["fields"]:
+            some_arm = a
+            pat = p["fields"][0]["pat"]
     body_expr = some_arm["body"]
     out = []
     for (s0, itv, c) in I.ev_arg(scrut["args"][0], st, fr):
